@@ -140,7 +140,7 @@ func (s *splitter) decoy(path string, v any) any {
 			}
 		}
 		if strings.HasSuffix(path, "depends_on.*.condition") || (key == "condition" && strings.Contains(path, "depends_on")) {
-			return rapid.SampledFrom([]string{"service_started", "service_healthy", "service_completed_successfully"}).Draw(s.t, "dcond")
+			return rapid.SampledFrom([]string{"service_started", "service_started", "service_healthy", "service_completed_successfully"}).Draw(s.t, "dcond")
 		}
 		if e, ok := enumTable[key]; ok {
 			return rapid.SampledFrom(e).Draw(s.t, "denum")
@@ -495,7 +495,7 @@ func (s *splitter) splitRefMap(path string, m map[string]any, defaults map[strin
 			maps[p][name] = nil
 			continue
 		}
-		child := s.splitMap(path+"."+name, inner)
+		child := s.splitMap(path+"."+strings.ReplaceAll(name, ".", "_"), inner)
 		lastMention := -1
 		for i, f := range child {
 			if f.present {
@@ -617,6 +617,30 @@ func (s *splitter) respell(path string, v any) any {
 			}
 			return l
 		}
+		if gp == "services.*.depends_on" && s.coin("deplist", 2, 3) {
+			// the short list spelling means exactly {condition: service_started, required: true}
+			all := len(x) > 0
+			for _, e := range x {
+				m, ok := e.(map[string]any)
+				if !ok || m["condition"] != "service_started" {
+					all = false
+					continue
+				}
+				for k, v := range m {
+					if !(k == "condition" || (k == "required" && v == true)) {
+						all = false
+					}
+				}
+			}
+			if all {
+				var l []any
+				for _, k := range sortedKeys(x) {
+					l = append(l, k)
+				}
+				s.used["spelled-depends-on-as-list"]++
+				return l
+			}
+		}
 		if gp == "services.*.networks" && s.coin("netlist", 1, 2) {
 			all := true
 			for _, e := range x {
@@ -676,10 +700,11 @@ func (s *splitter) splitModel(doc map[string]any) []map[string]any {
 		}
 		for _, name := range sortedKeys(section) {
 			var fr []frag
+			pname := strings.ReplaceAll(name, ".", "_") // paths are dotted: a name with a dot must stay one segment
 			if section[name] == nil {
-				fr = s.whole(top+"."+name, nil)
+				fr = s.whole(top+"."+pname, nil)
 			} else {
-				fr = s.splitMap(top+"."+name, section[name].(map[string]any))
+				fr = s.splitMap(top+"."+pname, section[name].(map[string]any))
 			}
 			for i, f := range fr {
 				if f.present {
@@ -688,7 +713,7 @@ func (s *splitter) splitModel(doc map[string]any) []map[string]any {
 						sec = map[string]any{}
 						parts[i][top] = sec
 					}
-					sec[name] = s.respell(top+"."+name, f.v)
+					sec[name] = s.respell(top+"."+pname, f.v)
 				}
 			}
 		}
